@@ -543,8 +543,12 @@ Definition asm_vol (pol : Z) (ffs3 : bool) (h : volhdr) (buf : bytes) (files : l
          | [] => Panic 203
          | (c, s) :: rest =>
            if s =? 0 then Err E_BLOCK0 else
-           let l := align_go newlen s in
-           Ok (l, ((l / s) mod U32, s) :: rest)
+           (* only the first entry is resized; the blocks of the further entries stay part of the
+              volume (uint64 arithmetic) *)
+           let rs := fold_left (fun a b => (a + fst b * snd b) mod U64) rest 0 in
+           let need := if rs <? newlen then newlen - rs else 0 in
+           let l := (rs + align_go need s) mod U64 in
+           Ok (l, ((((l - rs) mod U64) / s) mod U32, s) :: rest)
          end
        else Ok (v_length h, v_blocks h));
     let '(len, blocks) := lb in
